@@ -123,15 +123,15 @@ Section AddPass.
     - intros r Hr Rr Dr. destruct (Ipcomp r Hr Rr Dr) as [[H1 H2]|[]]. left. split; [exact H1|].
       destruct (ap_fields (home r)) as (_ & _ & _ & _ & _ & ->).
       destruct (Nat.eqb_spec (home r) s) as [E|]; [|exact H2]. apply in_app_last. left. rewrite E in H2. exact H2.
-    - intros q Hq. destruct (ap_fields q) as (_ & _ & _ & -> & -> & ->). destruct (Imarks q Hq) as [H1 H2].
+    - intros q Hq. destruct (ap_fields q) as (_ & _ & -> & -> & -> & ->). destruct (Imarks q Hq) as [H1 H2].
       split; [exact H1|]. destruct (Nat.eqb_spec q s) as [->|]; [|exact H2]. rewrite len_app_last. unfold sc. lia.
   Qed.
 
   Lemma ap_frame_s :
     frame_of st' home s = set_fund (frame_of st home s) (fund (frame_of st home s) ++ [uent_of st home v]).
   Proof.
-    unfold frame_of, set_fund. cbn [fid fisfunc fdecl fund fnarg]. rewrite ap_sc, Nat.eqb_refl.
-    cbn [sfunc sdeclared sundeclared narguses set_undeclared]. fold sc. rewrite map_app. reflexivity.
+    unfold frame_of, set_fund. cbn [fid fisfunc fdecl fund fnarg fnfor]. rewrite ap_sc, Nat.eqb_refl.
+    cbn [sfunc sdeclared sundeclared narguses nfordecls set_undeclared]. fold sc. rewrite map_app. reflexivity.
   Qed.
 
   Lemma ap_frame_other q : q <> s -> frame_of st' home q = frame_of st home q.
